@@ -366,6 +366,7 @@ def canon(v, t):
     if isinstance(t, Sc):
         if isinstance(v, bool): v = int(v)
         if t.c == 'float':
+            if isinstance(v, float) and v != v: return "(f nan)"          # NaN sign/payload is not part of any promise
             if isinstance(v, (int, float)): return "(f %d)" % fbits(v)
             return "(bad %r)" % (v,)
         if isinstance(v, int): return "(i %d)" % v
